@@ -2,6 +2,7 @@
 import itertools
 
 import numpy as np
+import openmdao.api as om
 
 from oasmc import builders, gen
 from oasmc.checks.c05 import full_of
@@ -73,6 +74,10 @@ def states(tier, seed):
     if tier == "thorough":
         for model in ["tube", "wingbox"]:
             st.append(dict(part="as", model=model, pf="swept", nx=2, ny=3, relief=True, fuel=False, pmass=False, visc=True, wave=True, fam=fam))
+    # wing + tail in one AerostructPoint, every combination of half / full modelling of the two surfaces against both full; sizes chosen
+    # so that in a mixed combination the two modelled lattices have the same shape
+    for model, sizes, pat, relief in itertools.product(["tube", "wingbox"], [(3, 2), (2, 3)], ["hh", "hf", "fh"], [False, True]):
+        st.append(dict(part="as2", model=model, sizes=sizes, pat=pat, relief=relief, fam=fam))
     return st, inadm
 
 
@@ -91,7 +96,50 @@ def surf_meshes(s):
 
 
 def run_state(s):
-    return part_aero(s) if s["part"] == "aero" else part_as(s)
+    return globals()["part_" + s["part"]](s)
+
+
+def part_as2(s):
+    fam = s["fam"]
+    halves = [gen.make_mesh("swept", 2, s["sizes"][0], "left", fam, span=10.0, chord=1.6), gen.make_mesh("rect", 2, s["sizes"][1], "left", fam, span=4.0, chord=0.9, offset=[6.0, 0.0, 0.8])]
+
+    def run(pat):
+        surfs = []
+        for k, (name, half) in enumerate(zip(("wing", "tail"), halves)):
+            sym = pat[k] == "h"
+            sf = builders.struct_surface(name, half if sym else full_of(half, "left"), sym, s["model"], struct_weight_relief=s["relief"], with_viscous=True, CD0=0.01 * (k + 1), CL0=0.03 * k)
+            sf["yield"] = sf["yield"] * (1.0 - 0.4 * k)
+            surfs.append(sf)
+        fl = dict(Mach_number=0.5, W0=2.0e3, v=100.0, rho=0.9, alpha=4.0, speed_of_sound=200.0, R=2.0e6, load_factor=1.3)
+        p = builders.build_aerostruct(surfs, fl)
+        builders.tighten(p)
+        p.run_model()
+        A = "AS_point_0."
+        out = {q: np.array(p[A + q], dtype=float) for q in ("CL", "CD", "CM", "fuelburn", "L_equals_W", "cg")}
+        for n in ("wing", "tail"):
+            for q in ("CL", "CD", "CDv", "L", "D"):  # not the KS failure aggregate: it is taken over the modelled elements, N or 2N of them
+                out["%s_perf.%s" % (n, q)] = np.array(p[A + "%s_perf.%s" % (n, q)], dtype=float)
+            out[n + ".S_ref"] = np.array(p[A + "coupled.%s.S_ref" % n], dtype=float)
+            out[n + ".structural_mass"] = np.array(p[n + ".structural_mass"], dtype=float)
+        return out
+
+    try:
+        ref = run("ff")
+        got = run(s["pat"])
+    except om.AnalysisError:
+        raise
+    except Exception as exc:  # noqa: BLE001
+        # each of these surfaces is analysed alone (half and full) by part "as": together they must at least set up
+        return dict(viol=[dict(sig=dict(oracle="half_vs_full", observable="sets_up", nsurf=2), msg="wing+tail AerostructPoint (modelling 'ff' then '%s') fails to set up / run: %s: %s" % (s["pat"], type(exc).__name__, str(exc)[:200]), measure=1.0)], nontrivial=True, digest="as2-fail", transitions=2, validated=1)
+    viol, val = [], 0
+    for k, b in ref.items():
+        val += 1
+        a = got[k]
+        sc = max(np.abs(b).max(), 1e-3 if k in ("CM", "cg") else 1e-6)
+        e = np.abs(a - b).max() / sc
+        if not e <= TOL_S:
+            viol.append(dict(sig=dict(oracle="half_vs_full", observable=k, nsurf=2, model=s["model"]), msg="wing+tail AerostructPoint, modelling '%s' vs both full: %s = %s vs %s (rel %.2e)" % (s["pat"], k, np.array2string(a.ravel()[:3], precision=8), np.array2string(b.ravel()[:3], precision=8), e), measure=float(e)))
+    return dict(viol=viol, nontrivial=bool(abs(ref["CL"][0]) > 1e-6), digest=digest_arrays(ref["CL"], ref["CD"], ref["CM"]), transitions=2, validated=val)
 
 
 def _aero_model(named, syms, s, extra_images=None, h=None):
